@@ -11,6 +11,7 @@ import copy
 import json
 import os
 import random
+import re
 from pathlib import Path
 from typing import Any, Dict, Iterable, List, Optional, Tuple
 
@@ -64,10 +65,10 @@ POOLS: Dict[str, Dict[str, List[Any]]] = {
     "perf": {
         "perf.t1.caps.frontier": [1, 2, 10 ** 6], "perf.t1.caps.visited": [1, 2, 10 ** 6],
         "perf.t1.dedupe_window": [1, 2, 4096], "perf.t1.queue_cap": [1, 7],
-        "perf.t1.cache.max_entries": [0, 1, 10 ** 6], "perf.t1.cache.max_bytes": [0, 1, 10 ** 9],
+        "perf.t1.cache.max_entries": [0, 1, 2, 10 ** 6], "perf.t1.cache.max_bytes": [0, 1, 10 ** 9],
         "perf.t2.embed_dtype": ["fp32", "fp16"], "perf.t2.embed_store_dtype": ["fp32", "fp16"],
         "perf.t2.precompute_norms": B,
-        "perf.t2.cache.max_entries": [0, 1, 10 ** 6], "perf.t2.cache.max_bytes": [0, 1, 10 ** 9],
+        "perf.t2.cache.max_entries": [0, 1, 2, 10 ** 6], "perf.t2.cache.max_bytes": [0, 1, 10 ** 9],
         "perf.t2.reader.partitions.enabled": B, "perf.t2.reader.partitions.layout": ["owner_quarter", "none"],
         "perf.t2.reader.partitions.path": ["parts", "x"], "perf.t2.reader.partitions.by": [["owner"], ["owner", "quarter"]],
         "perf.snapshots.compression": ["none", "zstd"], "perf.snapshots.level": [1, 19],
@@ -224,6 +225,47 @@ def gen_world(rng: random.Random) -> Dict[str, Any]:
         "state_extra": ({"_planner_reflection_flag": True} if rng.random() < 0.7 else {}),
         "turns": turns,
     }
+
+
+def gen_revisit_world(rng: random.Random) -> Dict[str, Any]:
+    """A world whose turn history revisits earlier queries after other distinct ones (q1 q2 q3 q1 q2 [q3]): every
+    query matches a node label (so T1 seeds, propagates and caches per graph), the planner asks for reflection, and
+    memory holds more episodes than the small fetch sizes of the sweep bases.  This is the history shape on which
+    cross-turn state (stage caches, dedupe rings, GEL decay, reflection entries) becomes observable."""
+    w = gen_world(rng)
+    labels = []
+    for n in w["graph"]["nodes"] + w["graph2"]["nodes"]:
+        if n[1] not in labels:
+            labels.append(n[1])
+    qs = labels[:3] if len(labels) >= 3 else (labels + WORDS)[:3]
+    extra = rng.choice(WORDS)
+    w["turns"] = [qs[0], qs[1] + " " + extra, qs[2], qs[0], qs[1] + " " + extra] + ([qs[2]] if rng.random() < 0.5 else [])
+    w["state_extra"] = {"_planner_reflection_flag": True}
+    return w
+
+
+def sweep_base(gate: str, t4_on: bool) -> Dict[str, Any]:
+    """Deterministic base for the per-leaf sweep: every OTHER feature that can interact with the gated one is on
+    (hybrid reads the GEL edges, GEL observes retrievals, reflection writes memory, perf metrics are reported), the
+    scheduler stays off (its yields would cut the turns short), small fetch size."""
+    cfg: Dict[str, Any] = {}
+    set_path(cfg, "t2.k_retrieval", 3)
+    set_path(cfg, "t2.sim_threshold", -1.0)
+    set_path(cfg, "t2.exact_recent_days", 3650)
+    if gate != "t2.hybrid":
+        set_path(cfg, "t2.hybrid", {"enabled": True, "use_graph": True, "edge_threshold": 0.1, "lambda_graph": 1.0})
+    if gate != "graph":
+        set_path(cfg, "graph.enabled", True)
+    if gate != "t3.reflection":
+        set_path(cfg, "t3.allow_reflection", True)
+    if gate != "perf":
+        set_path(cfg, "perf.enabled", True)
+        set_path(cfg, "perf.metrics.report_memory", True)
+    if gate in ("perf", "perf.parallel", "scheduler", "graph"):
+        set_path(cfg, "t2.quality", {"enabled": False, "shadow": True, "trace_dir": "rq"})
+    if not t4_on:
+        set_path(cfg, "t4.enabled", False)
+    return cfg
 
 
 def _pick(rng: random.Random, gate: str, frac: float = 0.7) -> Dict[str, Any]:
@@ -404,7 +446,11 @@ def deep_state(w: TR.World) -> Dict[str, Any]:
     keys = {}
     cm = st.get("_cache_mgr")
     if cm is not None:
-        keys = TR.observe_state(w).get("cache_keys")
+        keys = TR.observe_state(w).get("cache_keys") or {}
+        # cache keys are internals: the turn-level key carries a digest of configuration blocks (t2, perf, …), which
+        # legitimately differs when a gated-off subtree differs; what the property talks about is what is cached
+        # (how many entries per namespace, under which state version / query), not the digest
+        keys = {ns: sorted(re.sub(r"'ctx:[0-9a-f]+'", "'ctx:*'", k) for k in ks) for ns, ks in keys.items()}
     out["cache_keys"] = keys
     return out
 
@@ -418,11 +464,85 @@ def listing(root: Path) -> List[str]:
 
 
 def run_variant(scratch: Path, world: Dict[str, Any], cfg: Dict[str, Any], tracer=None) -> Dict[str, Any]:
-    """Fresh world + all turns on the REAL engine; returns the per-turn deep observation."""
-    spec = {k: copy.deepcopy(v) for k, v in world.items() if k not in ("turns", "graph2")}
+    """Fresh world + all turns on the REAL engine; returns the per-turn deep observation.
+    `world["batch"]` (optional): after the first turn (boot, snapshot on disk) the remaining turns are driven through
+    the REAL agent batch driver `_run_agents_parallel_batch` as rounds of (agent, text) tasks for two agents that
+    share a graph — the entry point behind the perf.parallel.agents gate."""
+    if world.get("batch"):
+        return _run_batch_variant(scratch, world, cfg)
+    return _run_turns_variant(scratch, world, cfg, tracer)
+
+
+def _read_files(w) -> Dict[str, list]:
+    files: Dict[str, list] = {}
+    for p in sorted(w.log_dir.glob("*.jsonl")):
+        recs = []
+        for line in p.read_text(encoding="utf-8").splitlines():
+            if line.strip():
+                try:
+                    recs.append(TR.canon_record(json.loads(line)))
+                except Exception:
+                    recs.append({"__unparsable__": line[:80]})
+        files[p.name[:-6]] = recs
+    return files
+
+
+def _run_batch_variant(scratch: Path, world: Dict[str, Any], cfg: Dict[str, Any]) -> Dict[str, Any]:
+    import importlib
+    w1 = dict(world)
+    w1.pop("batch", None)
+    w1["turns"] = world["turns"][:1]
+    holder: Dict[str, Any] = {}
+    obs = _run_turns_variant(scratch, w1, cfg, None, keep=holder)
+    w = holder["w"]
+    par = importlib.import_module("clematis.engine.orchestrator.parallel")
+    iol = importlib.import_module("clematis.engine.util.io_logging")
+    w.state["graphs_by_agent"] = {"a1": ["g:surface"], "a2": ["g:surface"]}
+    texts = world["turns"][1:] or world["turns"]
+    turns = obs["turns"]
+    with _cwd(w.root):
+        for i in range(0, len(texts), 2):
+            tasks = [("a1", texts[i])] + ([("a2", texts[i + 1])] if i + 1 < len(texts) else [("a2", texts[0])])
+            for p in w.log_dir.glob("*.jsonl"):
+                p.unlink()
+            ctx = TR.make_ctx(w, 2 + i // 2)
+            ctx.agent_id = "driver"
+            lines, raised = None, None
+            with TR._env(w):
+                try:
+                    res = par._run_agents_parallel_batch(ctx, w.state, list(tasks))
+                    lines = [getattr(r, "line", None) for r in res]
+                except Exception as e:  # a crash is an observable effect too
+                    raised = {"type": type(e).__name__, "msg": str(e)[:160]}
+                finally:
+                    try:
+                        iol.disable_staging()      # an aborted open-gate batch leaves staging on in this context
+                    except Exception:
+                        pass
+            files = _read_files(w)
+            for rec in files.get("scheduler", []):
+                if isinstance(rec.get("consumed"), dict):
+                    rec["consumed"].pop("ms", None)
+            turns.append({"result": {"lines": lines}, "raised": raised, "files": files,
+                          "listing": listing(w.root), "state": deep_state(w)})
+    return {"turns": _jsonable(turns)}
+
+
+def _run_turns_variant(scratch: Path, world: Dict[str, Any], cfg: Dict[str, Any], tracer=None, keep=None) -> Dict[str, Any]:
+    spec = {k: copy.deepcopy(v) for k, v in world.items() if k not in ("turns", "graph2", "batch")}
     spec["cfg"] = copy.deepcopy(cfg)
     scratch.mkdir(parents=True, exist_ok=True)
     w = TR.build_world(scratch, spec)
+    # The configuration the engine sees is EXACTLY validate_config(rig defaults + case config + scratch snapshot dir):
+    # the shared rig may add keys of its own to every configuration (e.g. a perf.metrics.trace_dir pointing into the
+    # scratch directory, which the validator refuses, so that the rig falls back to an un-normalised merge); a `perf`
+    # block materialised behind our back would defeat "subtree absent", and a scratch path inside the configuration
+    # makes configuration-derived cache keys differ from run to run.  Shadow traces stay in scratch because every
+    # turn runs with cwd = world root and trace dirs are relative.
+    from configs.validate import validate_config  # type: ignore
+    over = TR.deep_merge(TR.deep_merge(TR.RIG_CFG_DEFAULTS, cfg), {"t4": {"snapshot_dir": "snaps"}})
+    w.cfg_plain = validate_config(copy.deepcopy(over))
+    w.cfg = TR.to_attrdict(w.cfg_plain)
     g2 = world.get("graph2")
     if g2 and w.store is not None:
         from clematis.graph.store import Node, Edge
@@ -445,6 +565,9 @@ def run_variant(scratch: Path, world: Dict[str, Any], cfg: Dict[str, Any], trace
                           "listing": listing(w.root), "state": deep_state(w)})
     if tracer is not None:
         tracer.uninstall()
+    if keep is not None:
+        keep["w"] = w
+        return {"turns": turns}
     return {"turns": _jsonable(turns)}
 
 
